@@ -10,6 +10,7 @@
 -/
 import Jqawk.Model.Driver
 import Jqawk.Lemmas.JsonPrefix
+import Jqawk.Lemmas.StreamPrefix
 
 namespace Jqawk.C03
 open Jqawk
@@ -140,5 +141,47 @@ theorem clean_end (src : Bytes) (tbl : RuleTable) (sels : List Bytes) (file : In
 /-- non-vacuity: `[1] ] [2]` — one value, then a fault (never a silent end) -/
 example : (decodeAll (fun _ => true) .eof 10 b!"[1] ] [2]").2 = .fault := by decide +kernel
 example : (decodeAll (fun _ => true) .eof 10 b!"[1] [2] ").2 = .clean := by decide +kernel
+
+/-- **A stream is processed value by value; for any prefix the output is the output of the
+    complete values in that prefix.**  Take any split `pre ++ more` of a file's bytes (however
+    the stream ends: clean EOF or a read error).  Process `pre` alone as a stream that may still
+    deliver bytes, and process the whole file, from the same state:
+    * if the prefix already ends the run (`exit`, a runtime error, …) the whole file ends the run
+      in the very same state — no later byte is ever looked at;
+    * otherwise (the decoder wants more bytes, or found a fault) the state after the complete
+      values of the prefix is a state the whole run passes through, and everything written
+      later is appended after the prefix's output (`OutExt`).
+    No hypothesis on the program, the selectors, the bytes or the state. -/
+theorem prefix_processed_first (src : Bytes) (tbl : RuleTable) (sels : List Bytes) (name pre more : Bytes)
+    (t : Json.Tail) (s : St) :
+    PrefixRel
+      (processFile prog src tbl sels ⟨name, pre, .more⟩ (pre.length + 2) pre s)
+      (processFile prog src tbl sels ⟨name, pre ++ more, t⟩ ((pre ++ more).length + 2) (pre ++ more) s) :=
+  processFile_prefix prog src tbl sels ⟨name, pre, .more⟩ ⟨name, pre ++ more, t⟩ rfl rfl more _ pre s _
+    (by simp)
+
+/-- the same for the decoded values alone: the values of a prefix are an initial segment of the
+    values of the whole stream -/
+theorem prefix_values (numOk : Bytes → Bool) (more : Bytes) (t : Json.Tail) :
+    ∀ (n : Nat) (pre : Bytes) (m : Nat), n ≤ m → (decodeAll numOk .more n pre).2 ≠ .fuel →
+      (decodeAll numOk .more n pre).1 <+: (decodeAll numOk t m (pre ++ more)).1 := by
+  intro n
+  induction n with
+  | zero => intro pre m _ h; simp [decodeAll] at h
+  | succ n ih =>
+    intro pre m hm hf
+    obtain ⟨m', rfl⟩ : ∃ m', m = m' + 1 := ⟨m - 1, by omega⟩
+    unfold decodeAll at hf ⊢
+    cases hd : Json.decodeOne numOk pre .more with
+    | eof => simp
+    | error => simp
+    | needMore => simp
+    | value v rest =>
+      rw [Json.decodeOne_prefix_value more t hd]
+      rw [hd] at hf
+      simp only [List.cons_prefix_cons, true_and]
+      exact ih rest m' (by omega) hf
+
+example : (decodeAll (fun _ => true) .more 10 b!"[1] {\"a\":2} [3").1.length = 2 := by decide +kernel
 
 end Jqawk.C03
